@@ -474,8 +474,16 @@ def compare(case, real, ans, table):
     cards, items, ev, problems = written_struct(real["out"], table, len(real["api"] or m["api"]))
     if cards != m["cards"]:
         dis.append(("cell cards", cards, m["cards"]))
-    if items != m["data"]:
-        dis.append(("data block", items, m["data"]))
+    # the text of a vector is not modelled: a card with a token the independent reader cannot read as a number or
+    # a shortcut (oracle: 'vector-entry') is compared by class only
+    garbled = {it[0] for it in items if it != "o" and any(isinstance(x, tuple) for _, vec in it[1] for x in vec)}
+    if garbled:
+        items = [(it[0], "?") if it != "o" and it[0] in garbled else it for it in items]
+        mdata = [(it[0], "?") if it != "o" and it[0] in garbled else it for it in m["data"]]
+    else:
+        mdata = m["data"]
+    if items != mdata:
+        dis.append(("data block", items, mdata))
     if ev != m["events"]:
         dis.append(("order of blocks", ev, m["events"]))
     return dis
@@ -855,7 +863,8 @@ SHORT = re.compile(r"^(\d*)(r|j|i|ilog|m)$", re.I)
 
 
 def expand_modifier_shortcuts(text):
-    """rewrite the data-block cards of the five classes without shortcuts (same meaning)"""
+    """rewrite the data-block cards of the five classes without shortcuts and without trailing jumps (same
+    meaning: omitted trailing entries are defaults)"""
     sp = spec.split_file(text)
     if len(sp["blocks"]) < 3:
         return text
@@ -868,6 +877,9 @@ def expand_modifier_shortcuts(text):
                 and "=" not in l and any(SHORT.match(x) for x in t[1:]):
             vec = spec.expand_shortcuts([x.upper() for x in t[1:]])
             if all(x == "J" or isinstance(x, Fraction) for x in vec):
+                while len(vec) > 1 and vec[-1] == "J":
+                    vec.pop()
+
                 def sh(x):
                     if x == "J":
                         return "j"
@@ -875,6 +887,17 @@ def expand_modifier_shortcuts(text):
                 l = " ".join([t[0]] + [sh(x) for x in vec])
         out.append(l)
     return "\n".join(out)
+
+
+def ends_with_jump(text):
+    """a data-block card of the five classes whose last token is a jump (j, 2j, ...)"""
+    for l in text.split("\n"):
+        t = l.split()
+        head = t[0].upper().lstrip("*") if t else ""
+        if len(t) > 1 and (head.startswith("IMP:") or head in ("VOL", "U", "LAT", "FILL")) and not l.startswith(" ") \
+                and "=" not in l and re.match(r"^\d*j$", t[-1], re.I):
+            return True
+    return False
 
 
 NEUTRAL = {"L": ["F", "lat", 1], "P": ["F", "imp", 1], "M": ["F", "imp", 1], "U": ["F", "u", 0], "V": ["F", "vol", 0]}
@@ -929,6 +952,14 @@ def replay(ctx, path):
 def run(ctx):
     quick = ctx.tier == "quick"
     n_pairs = 34 if quick else 900
+    # the order of write_to_file's steps is taken from the source on every run (Gen/Writer.v); Properties/C09.v
+    # compares it with the order Model/Place.v assumes (C09_gen_writer_steps)
+    try:
+        import translate_writer
+        translate_writer.regenerate()
+    except Exception as e:
+        ctx.broken_obligations.append({"obligation": "translate_writer (Gen/Writer.v from MCNP_Problem.write_to_file)",
+                                       "detail": f"{type(e).__name__}: {e}"[:600]})
     ctx.prove()
     ok, log = vlib.coq_make(["Model/Place.vo"])
     if not ok:
